@@ -206,13 +206,22 @@ func (b Bytes) With(value Value) Set {
 func (b Bytes) Without(value Value) Set {
 	if pos, byt, ok := isBytesTuple(value); ok {
 		if i := b.index(pos); i >= 0 && i < len(b.b) && byt == b.b[i] {
-			if pos == b.offset+i {
-				if bytes := b.b[:i]; len(bytes) > 0 {
-					return Bytes{b: bytes, offset: b.offset}
-				}
+			// Removing an end byte leaves a shorter byte array (or nothing); Bytes has no holes, so without an
+			// inner byte the rest is a plain set of the remaining tuples.
+			var rest []byte
+			offset := b.offset
+			switch i {
+			case len(b.b) - 1:
+				rest = b.b[:len(b.b)-1]
+			case 0:
+				rest, offset = b.b[1:], b.offset+1
+			default:
+				return newGenericSetFromSet(b).Without(value)
+			}
+			if len(rest) == 0 {
 				return None
 			}
-			return newGenericSetFromSet(b).Without(value)
+			return Bytes{b: rest, offset: offset}
 		}
 	}
 	return b
